@@ -34,6 +34,8 @@ import (
 	"verifharness/vk"
 )
 
+var prop = "C02" // C01 runs the same workloads with the content oracle reporting under C01
+
 const progressBound = 10 * time.Minute
 const promptBound = time.Minute
 
@@ -151,6 +153,7 @@ func (e *env) readOnce(m *rmodel, n int) bool {
 		for i := range tr {
 			if tr[i] != buf[i] {
 				sw.Viol("C02", "model", "read-content", fmt.Sprintf("reader%d: byte at position %d (torrent offset %d) differs from the true content", m.id, m.pos+int64(i), m.off+m.pos+int64(i)))
+				sw.Viol("C01", "content", "reader-content", fmt.Sprintf("tor.Reader returned a byte at torrent offset %d that differs from the true content", m.off+m.pos+int64(i)))
 				return false
 			}
 		}
@@ -299,7 +302,7 @@ var bufSizes = []int{1, 2, 100, 4096, 16383, 16384, 16385, 65536, 200000}
 
 func history(t *testing.T, c *vk.C, rng *rand.Rand, i int) map[string]int {
 	st := map[string]int{}
-	swarm.Run(t, c, "C02", func(sw *swarm.Swarm) {
+	swarm.Run(t, c, prop, func(sw *swarm.Swarm) {
 		g := fixture.RandGeo(rng, 1<<20, []uint32{16 << 10, 32 << 10, 64 << 10, 128 << 10})
 		if rng.IntN(2) == 0 && g.Length > 10 {
 			g.SplitFiles(rng, 2+rng.IntN(5), rng.IntN(3) == 0)
@@ -554,10 +557,14 @@ func history(t *testing.T, c *vk.C, rng *rand.Rand, i int) map[string]int {
 
 func TestCheck(t *testing.T) {
 	fixture.FrontendInit() // registers the HTTP handlers once, outside any bubble
-	r := vk.New("C02")
+	prop = os.Getenv("VERIF_PROP")
+	if prop == "" {
+		prop = "C02"
+	}
+	r := vk.New(prop)
 	defer r.Done()
 	part := os.Getenv("VERIF_PART")
-	n := r.Env.N(400, 20000)
+	n := r.Env.N(900, 20000)
 	if os.Getenv("VERIF_RACE_SUBSET") != "" {
 		n = r.Env.N(120, 3000)
 	}
@@ -588,7 +595,7 @@ func TestCheck(t *testing.T) {
 type rng2 struct{ a, b int64 } // inclusive
 
 func frontends(t *testing.T, r *vk.Run) {
-	n := r.Env.N(250, 8000)
+	n := r.Env.N(500, 8000)
 	for i := 0; i < n; i++ {
 		if !r.Mine(i) {
 			continue
@@ -597,7 +604,7 @@ func frontends(t *testing.T, r *vk.Run) {
 		d := map[string]any{"family": "http-range+fuse"}
 		c := r.Begin(i, d)
 		st := map[string]int{}
-		swarm.Run(t, c, "C02", func(sw *swarm.Swarm) {
+		swarm.Run(t, c, prop, func(sw *swarm.Swarm) {
 			g := fixture.RandGeo(rng, 512<<10, []uint32{16 << 10, 32 << 10, 64 << 10})
 			g.Name = fmt.Sprintf("f%x", rng.Uint32())
 			multi := rng.IntN(2) == 0 && g.Length > 10
@@ -759,6 +766,7 @@ func httpRange(e *env, rng *rand.Rand, url string, foff, flen int64) bool {
 			return bad("content-range", fmt.Sprintf("expected Content-Range bytes %d-%d/%d", w.a, w.b, flen))
 		}
 		if string(body) != string(truth(w.a, w.b)) {
+			sw.Viol("C01", "content", "http-content", "an HTTP body byte differs from the true content")
 			return bad("range-body", "body differs from the true bytes of the range")
 		}
 		e.stats["http_206"]++
@@ -889,6 +897,7 @@ func fuseReads(e *env, rng *rand.Rand, multi bool, path []string, foff, flen int
 			return false
 		}
 		if wantN > 0 && string(x.data) != string(e.g.Truth(foff+x.off, int(wantN))) {
+			sw.Viol("C01", "content", "fuse-content", "a FUSE read returned a byte that differs from the true content")
 			sw.Viol("C02", "fuse", "fuse-read-content", fmt.Sprintf("Read(off %d, size %d) of %v differs from the true content", x.off, x.size, comps))
 			return false
 		}
